@@ -415,8 +415,28 @@ def oracle_transfers(scn, res):
     return v
 
 
+def oracle_terminates(scn, res):
+    """C08 at the client: whatever the server does and wherever it closes, every call ends by returning or by throwing
+    ftp::ftp_exception - it does not hang once the server has closed, crash, trip a sanitizer or let another exception
+    type escape"""
+    v = []
+    for ci, a in enumerate(res["calls"]):
+        o = a["out"]
+        if o == "blocked":
+            silent = any(len(log["lines"]) > len(sess["reactions"]) for log, sess in zip(res["peer"], scn["sessions"]))
+            if not silent:
+                v.append((ci, "fault/call-does-not-end", "the call was still running although the peer had answered or closed"))
+            break
+        if o == "CRASH":
+            v.append((ci, "fault/crash-or-sanitizer-report", (a.get("stderr") or "")[-400:]))
+            break
+        if o.startswith("throw:") and not o.startswith("throw:ftp_exception"):
+            v.append((ci, "fault/foreign-exception-type", o[:120]))
+    return v
+
+
 ORACLES = dict(lockstep=oracle_lockstep, commands=oracle_commands, state=oracle_state, sockets=oracle_sockets,
-               observers=oracle_observers, transfers=oracle_transfers)
+               observers=oracle_observers, transfers=oracle_transfers, terminates=oracle_terminates)
 
 
 # ---------------------------------------------------------------------------------------------- generators
@@ -669,6 +689,66 @@ def fam_ascii(rng, n, dist, thorough=False):
             dist.add("ascii:%s:%s" % (kind, "callback" if cb else "no-callback"))
         b.disconnect(True)
         out.append(b.scenario())
+    return out
+
+
+def fam_faults(rng, n, dist, thorough=False):
+    """a dialogue cut by the server at every position: clean close, reset, or a reply cut in the middle and then close -
+    before the greeting, inside a reply code, inside a multi-line reply, between the preliminary and the completion reply,
+    during the data transfer; plain and TLS"""
+    out = []
+    bases = ["simple", "download", "upload", "list", "rename", "login-only"]
+    for i in range(n):
+        tls = (i % 5 == 4)
+        mode, rfc = ALL_METHODS[i % 4]
+        b = S.Builder(rng, mode, rfc, type=rng.choice("IA"), tls=tls, resume=True, tlsver="12", verify="trusted")
+        base = bases[i % len(bases)]
+        b.connect(login=(b"u", b"p"), greeting=rng.choice([(220,), (120, 220)]))
+        if base == "simple":
+            b.simple(b"PWD", None, 257, multi=True); b.simple(b"NOOP", None, 200)
+        elif base == "download":
+            b.transfer("D", b"f.bin", payload_segs=[b"x" * 9000, b"y" * 100], cb=rng.choice([None, [False] * 20]), completion="on_close")
+        elif base == "upload":
+            b.transfer("U", b"u.bin", chunks=[b"z" * 8192, b"w" * 10], cb=None)
+        elif base == "list":
+            b.transfer("F", None, payload_segs=[b"a\r\nb\r\n"], completion=rng.choice(["now", "on_close"]))
+        elif base == "rename":
+            b.rename(b"a", b"b"); b.simple(b"SYST", None, 215)
+        b.simple(b"NOOP", None, 200)
+        b.disconnect(True)
+        scn = b.scenario()
+        sess = scn["sessions"][0]
+        nre = len(sess["reactions"])
+        k = rng.randrange(-1, nre)            # -1: the greeting itself
+        how = rng.choice(["close", "reset", "partial", "partial-code", "data-reset", "data-bare-close"])
+        r = sess["greeting"] if k < 0 else sess["reactions"][k]
+        if how in ("data-reset", "data-bare-close") and not any(x.get("data") for x in sess["reactions"]):
+            how = "close"
+        if how == "close":
+            r["close_after"] = True; r["on_close"] = []       # (what would have been written later is never written)
+        elif how == "reset":
+            r["reset_after"] = True; r["close_after"] = True; r["on_close"] = []
+        elif how in ("partial", "partial-code") and r["now"]:
+            last = r["now"][-1]
+            text = last[2] if last[0] == "R" else last[1]
+            cut = rng.randrange(1, 3) if how == "partial-code" else rng.randrange(1, max(2, len(text)))
+            r["now"] = r["now"][:-1] + [("G", text[:cut])]       # the reply stops in the middle; then end of stream
+            r["on_close"] = []
+            r["close_after"] = True
+        elif how in ("data-reset", "data-bare-close"):
+            for x in sess["reactions"]:
+                if x.get("data"):
+                    x["data"]["end"] = "R" if how == "data-reset" else "X"
+                    x["data"]["segs"] = x["data"].get("segs", [])[:1]
+        else:
+            r["close_after"] = True; r["on_close"] = []
+        # expectations of the reference builder no longer apply after the cut: the model decides (correspondence), the
+        # oracle only asks that every call ends properly
+        scn["exp"] = [dict(e, throws=False, may_throw=False, check_open=False) for e in scn["exp"]]
+        scn["exp"][-1]["may_throw"] = True      # QUIT on a session that a fault has left out of step (TLS: unread records): either way
+        scn["exp"][-1]["check_open"] = False
+        dist.add("fault:%s:%s:at-%s" % (base, how, "greeting" if k < 0 else "reaction"))
+        out.append(scn)
     return out
 
 
@@ -1198,7 +1278,7 @@ def fam_dispatch(rng, n, dist):
 ORACLES.update(tls=oracle_tls, reuse=oracle_reuse, endpoints=oracle_endpoints)
 
 FAMILIES = dict(mixed=lambda rng, n, dist, th: gen_mixed(rng, "quick", dist, n), observers=lambda r, n, d, th: fam_observers(r, n, d),
-                abor=lambda r, n, d, th: fam_abor(r, n, d), downloads=fam_downloads, uploads=fam_uploads, ascii=fam_ascii,
+                abor=lambda r, n, d, th: fam_abor(r, n, d), downloads=fam_downloads, uploads=fam_uploads, ascii=fam_ascii, faults=fam_faults,
                 refusals=lambda r, n, d, th: fam_refusals(r, n, d), cancel=lambda r, n, d, th: fam_cancel(r, n, d),
                 args=lambda r, n, d, th: fam_args(r, n, d), tls=lambda r, n, d, th: fam_tls(r, n, d),
                 reconnect=lambda r, n, d, th: fam_reconnect(r, n, d), reuse=lambda r, n, d, th: fam_reuse(r, n, d),
@@ -1219,6 +1299,7 @@ PROPS = {
     "C11": dict(fam=[("tls", 6), ("reconnect", 1)], proj=["out", "state", "wire"], oracles=["tls", "commands"], n=(90, 500)),
     "C13": dict(fam=[("reconnect", 6), ("tls", 1)], proj=["out", "state", "held", "wire"], oracles=["state", "sockets", "lockstep", "tls"], n=(120, 600)),
     "C18": dict(fam=[("reuse", 1)], proj=["out", "wire"], oracles=["reuse"], n=(60, 300)),
+    "C08": dict(fam=[("faults", 1)], proj=["out", "state"], oracles=["terminates"], n=(120, 600), variant="asan"),
     "C05": dict(fam=[("ascii", 1)], proj=["out", "io"], oracles=["transfers"], n=(60, 300)),
     "C06": dict(fam=[("dispatch", 5), ("tls", 1)], proj=["out", "wire", "held"], oracles=["endpoints", "commands"], n=(160, 800)),
 }
@@ -1263,13 +1344,14 @@ def check_into(rep, prop, tier, rng, module=None, merge=False):
     scns = generate(prop, rng, tier, dist)
     try:
         drv = vlib.ocaml_driver()
-        exe = registry.build_client("plain")
+        exe = registry.build_client(spec.get("variant", "plain"))
     except vlib.HarnessBuildError as e:
         rep.broken("correspondence:%s:harness-does-not-build" % prop, str(e)[-1500:])
         rep.coverage.update(evaluations=0, distinct_nontrivial=0, samples=[], rule="harness did not build")
         return
     work = os.path.join(vlib.BUILD, "work", prop)
-    results = P.run_scenarios(scns, exe, drv, work, tier)
+    env = dict(os.environ, ASAN_OPTIONS="detect_leaks=0:abort_on_error=0", UBSAN_OPTIONS="print_stacktrace=1") if spec.get("variant") == "asan" else None
+    results = P.run_scenarios(scns, exe, drv, work, tier, env=env)
     # a scenario that disagrees or fails an oracle is run once more, alone: only what reproduces is reported
     # (the first run shares the machine with eleven other clients and peers; real sockets under load can time out)
     def is_bad(scn, res):
@@ -1280,7 +1362,7 @@ def check_into(rep, prop, tier, rng, module=None, merge=False):
     if bad:
         # (bounded: the shortest histories first, at most 24 of them, blocked ones last)
         bad = sorted(bad, key=lambda i: (results[i]["status"] != "ok", len(scns[i]["calls"])))[:24]
-        again = P.run_scenarios([scns[i] for i in bad], exe, drv, work, tier + "-again", nworkers=2)
+        again = P.run_scenarios([scns[i] for i in bad], exe, drv, work, tier + "-again", nworkers=2, env=env)
         for i, r in zip(bad, again):
             if not is_bad(scns[i], r):
                 rep.notes.append("scenario %d disagreed in the parallel run and agreed when re-run alone (load): not reported" % i)
